@@ -23,6 +23,10 @@ pub mod mpsc {
     #[verifier::accept_recursive_types(T)]
     pub struct TrySendError<T> { _p: core::marker::PhantomData<T> }
 
+    impl<T> core::fmt::Debug for TrySendError<T> {
+        #[verifier::external_body]
+        fn fmt(&self, f: &mut core::fmt::Formatter<'_>) -> core::fmt::Result { unimplemented!() }
+    }
     /// which channel an end belongs to
     pub uninterp spec fn chan_s<T>(s: UnboundedSender<T>) -> int;
     pub uninterp spec fn chan_r<T>(r: UnboundedReceiver<T>) -> int;
